@@ -131,6 +131,8 @@ type c12Run struct {
 	frame   string
 	faults  map[int]*sentinel
 	skipped bool
+	// refuse: callback number of a create request that is answered with (nil, nil)
+	refuse int
 }
 
 func c12Exec(sc c12Scenario, faults []int) c12Run {
@@ -140,8 +142,13 @@ func c12Exec(sc c12Scenario, faults []int) c12Run {
 		panic(err)
 	}
 	log := &store.Log{}
-	run := c12Run{log: log, faults: map[int]*sentinel{}}
+	run := c12Run{log: log, faults: map[int]*sentinel{}, refuse: -1}
 	for _, k := range faults {
+		if k < 0 {
+			// -(k+1): refusal of create request k instead of a fault
+			run.refuse = -(k + 1)
+			continue
+		}
 		run.faults[k] = &sentinel{k}
 	}
 	tgt := store.NewRef(t)
@@ -207,6 +214,9 @@ func c12Exec(sc c12Scenario, faults []int) c12Run {
 		log.Fail = func(e *store.Event) error {
 			if s, ok := run.faults[e.N]; ok {
 				return s
+			}
+			if e.N == run.refuse && e.New && (e.Kind == "child" || e.Kind == "next") {
+				return store.ErrRefuse
 			}
 			return nil
 		}
@@ -425,6 +435,23 @@ func (p *c12) Run(raw json.RawMessage) eng.Result {
 		}
 		res.Outcomes = append(res.Outcomes, fmt.Sprintf("%s:%d", scenarioClass(sc), len(run.log.Events)))
 	}
+	refusal := func(k int) {
+		run := c12Exec(sc, []int{-(k + 1)})
+		res.Evals++
+		res.Nontriv++
+		site := "refused-create"
+		switch {
+		case run.panic != "":
+			report(site+"/panic:"+run.frame, fmt.Sprintf("create request %d answered with (nil, nil): %s", k, run.panic), -(k + 10), -1)
+		case run.err == nil:
+			report(site+"/no-error", fmt.Sprintf("create request %d (%s) answered with (nil, nil) but the API call returned nil", k, base.log.Events[k]), -(k + 10), -1)
+		default:
+			// pairing still has to hold
+			if sym, what := c12Check(sc, run, nil); strings.Contains(sym, "begin-without-end") || strings.Contains(sym, "end-without-begin") {
+				report(site+"/"+sym, what, -(k + 10), -1)
+			}
+		}
+	}
 	switch {
 	case c.K == -3:
 		// fault-free replay only
@@ -439,9 +466,18 @@ func (p *c12) Run(raw json.RawMessage) eng.Result {
 				one([]int{k1, k2})
 			}
 		}
+	case c.K <= -10:
+		// replay of a refusal
+		refusal(-(c.K + 10))
 	default:
 		for k := 0; k < n; k++ {
 			one([]int{k})
+		}
+		// a target that answers a create request with "nothing, no error"
+		for k, e := range base.log.Events {
+			if e.Side == "dst" && e.New && (e.Kind == "child" || e.Kind == "next") {
+				refusal(k)
+			}
 		}
 	}
 	// dedupe outcomes
